@@ -2,7 +2,7 @@
 Line-protocol driver for the C02 model (`lake env lean --run Ampverif/Drivers/C02.lean`).
 
   variant <perFlippedNode 0|1> <guardOnFlipped 0|1> <ownProjections 0|1>
-  config <canonical> <couplings> <parentHel> <childHel> <lsArrow>          (0|1 each)
+  config <canonical> <couplings> <parentHel> <childHel> <lsArrow> <dyn>    (0|1 each; dyn = - or namehex=builderhex,…)
   t <nodes>|<edges>|<states>|<inters>
         nodes  n,n,…                      edges  id:orig:dest;…   (`-` = none)
         states id,namehex,labelhex,spin2,hel2;…      inters node,eta,ls;…  (eta -|1|-1, ls -|2L:2S)
@@ -67,6 +67,9 @@ def termStr (t : Term) : String :=
     ++ "|D=" ++ ";".intercalate (t.nodes.map fun n =>
         ints [n.d.j2, n.d.m2, n.d.mu2] ++ "," ++ tohex n.d.phi ++ "," ++ tohex n.d.theta)
     ++ "|G=" ++ ";".intercalate ((t.nodes.flatMap (·.cg)).map fun g => ints [g.j1, g.m1, g.j2, g.m2, g.J, g.M])
+    ++ "|L=" ++ ";".intercalate ((t.nodes.filterMap (·.dyn)).map fun a =>
+        ",".intercalate [tohex a.builder, tohex a.particle, tohex a.mParent, tohex a.m1, tohex a.m2,
+          (match a.ell with | some l => toString l | none => "-"), tohex a.phi, tohex a.theta])
 
 def terms (l : List Term) : String := if l.isEmpty then "-" else "#".intercalate (l.map termStr)
 
@@ -83,7 +86,7 @@ def graphStr (t : Transition) : String :=
 structure State where
   v : Variant := ⟨true, true⟩
   own : Bool := true
-  cfg : Config := ⟨false, false, ⟨false, true, false⟩⟩
+  cfg : Config := ⟨false, false, ⟨false, true, false⟩, []⟩
   ts : List Transition := []
 
 def flush (st : State) : List String :=
@@ -106,8 +109,12 @@ partial def loop (h : IO.FS.Stream) (out : IO.FS.Stream) (st : State) : IO Unit 
   let line := String.ofList (line.toList.reverse.dropWhile Char.isWhitespace).reverse
   match line.splitOn " " with
   | ["variant", a, b, c] => loop h out { st with v := ⟨a == "1", b == "1"⟩, own := c == "1" }
-  | ["config", c, k, p, ch, ls] =>
-    loop h out { st with cfg := ⟨c == "1", k == "1", ⟨p == "1", ch == "1", ls == "1"⟩⟩, ts := [] }
+  | ["config", c, k, p, ch, ls, dyn] =>
+    let d := if dyn == "-" then [] else (dyn.splitOn ",").filterMap fun e =>
+      match e.splitOn "=" with
+      | [a, b] => some (unhex a, unhex b)
+      | _ => none
+    loop h out { st with cfg := ⟨c == "1", k == "1", ⟨p == "1", ch == "1", ls == "1"⟩, d⟩, ts := [] }
   | ["t", body] =>
     match parseTransition body with
     | some t => loop h out { st with ts := t :: st.ts }
